@@ -583,8 +583,21 @@ func ParseTGData(tgSerialized []byte, rootPath string) (tgID int64, wtSets []wal
 		offsetLenBytes = 8
 		indexLenBytes  = 8
 	)
+	// The record comes from a WAL file or from the network. A malformed one (counts or lengths
+	// pointing outside the buffer) yields no write sets instead of crashing the server.
+	defer func() {
+		if r := recover(); r != nil {
+			log.Error(fmt.Sprintf("malformed transaction group data (tgID=%d): %v", tgID, r))
+			wtSets = nil
+		}
+	}()
 	tgID = io.ToInt64(tgSerialized[0:tgIDLenBytes])
 	WTCount := io.ToInt64(tgSerialized[tgIDLenBytes : tgIDLenBytes+wtCountLenBytes])
+	if WTCount < 0 || WTCount > int64(len(tgSerialized)) {
+		// every write set takes more than one byte
+		log.Error(fmt.Sprintf("malformed transaction group data (tgID=%d): WTCount=%d", tgID, WTCount))
+		return tgID, nil
+	}
 
 	cursor := tgIDLenBytes + wtCountLenBytes
 	wtSets = make([]wal.WTSet, WTCount)
